@@ -127,7 +127,8 @@ def make_probes(rng, roi, recip_sampling, wavelength, num_modes, orthogonal=True
 
 
 def make_scene(rng, *, gpts=None, roi=None, obj_type=None, num_slices=None, num_modes=None, pad_req=None, integer_centre=False,
-               phase_std=None, orthogonal=True, aberrations=True, periodic_symmetric=False, total_intensity=None, lib_shape=None, lib_pad=None):
+               phase_std=None, orthogonal=True, aberrations=True, periodic_symmetric=False, total_intensity=None, lib_shape=None, lib_pad=None,
+               samp=None, step_px=None, gaussian_probe=False):
     gpts = tuple(gpts) if gpts is not None else (int(rng.integers(3, 7)), int(rng.integers(3, 7)))
     roi = tuple(roi) if roi is not None else (int(rng.integers(8, 21)), int(rng.integers(8, 21)))
     obj_type = obj_type or ["complex", "pure_phase", "potential"][int(rng.integers(3))]
@@ -136,12 +137,17 @@ def make_scene(rng, *, gpts=None, roi=None, obj_type=None, num_slices=None, num_
     pad_req = tuple(pad_req) if pad_req is not None else (int(rng.integers(0, 9)), int(rng.integers(0, 9)))
     energy = float(rng.choice([60e3, 80e3, 200e3, 300e3]))
     lam = ref.electron_wavelength_A(energy)
-    samp = (float(rng.uniform(0.2, 0.5)), float(rng.uniform(0.2, 0.5)))
+    samp_draw = (float(rng.uniform(0.2, 0.5)), float(rng.uniform(0.2, 0.5)))
+    samp = tuple(samp) if samp is not None else samp_draw
     dk = (1.0 / (roi[0] * samp[0]), 1.0 / (roi[1] * samp[1]))
     # scan step in object pixels: fov/sampling = step_px*(n-1) must be >= 1 and stay clear of integers (floor) ...
+    step_fixed = step_px
     step_px = []
     for a in range(2):
         n = gpts[a]
+        if step_fixed is not None:
+            step_px.append(float(step_fixed[a]))
+            continue
         if integer_centre:
             # even integer fov in px -> integer scan centre, floor() unambiguous, and no .5 ties in the positions
             for _ in range(200):
@@ -189,6 +195,17 @@ def make_scene(rng, *, gpts=None, roi=None, obj_type=None, num_slices=None, num_
         obj = np.exp(1j * phase)
     I0 = float(total_intensity) if total_intensity is not None else float(10 ** rng.uniform(5, 7))
     probes, semiangle, ab = make_probes(rng, roi, dk, lam, M, orthogonal=orthogonal, aberrations=aberrations, total_intensity=I0, radius_div=5.0 if periodic_symmetric else 3.2)
+    if gaussian_probe:
+        # Gaussian in both spaces (sigma_k = roi/8 px, sigma_x = 4/pi px): confined to ~1e-9 at the ROI edge for roi >= 16, so the
+        # periodic wrap-around of the probe window carries no signal and the data does not depend on how a .5 tie is rounded
+        kr = ref.signed_fft_indices(roi[0])[:, None] / (roi[0] / 8.0)
+        kc = ref.signed_fft_indices(roi[1])[None, :] / (roi[1] / 8.0)
+        base = np.exp(-0.5 * (kr**2 + kc**2))
+        chi = float(rng.uniform(-0.15, 0.15)) * (kr**2 + kc**2) + float(rng.uniform(-0.1, 0.1)) * (kr**2 - kc**2)
+        mods = [1.0, kr + 0 * kc, kc + 0 * kr, kr * kc]
+        modes = gram_schmidt([np.fft.ifft2(base * mods[m] * np.exp(-1j * chi), norm="ortho") for m in range(M)])
+        w = np.array([1.0, 0.3, 0.1, 0.03][:M])
+        probes = modes * np.sqrt(w / w.sum() * I0)[:, None, None]
     pos = ref.raster_positions_px(gpts, scan_step_A, samp, pad_eff)
     return Scene(gpts=gpts, roi=roi, obj_sampling=samp, recip_sampling=dk, scan_step_A=scan_step_A, step_px=step_px, energy=energy, wavelength=lam,
                  pad_req=pad_req, pad_eff=tuple(int(p) for p in pad_eff), obj_shape=(S, H, W), obj_type=obj_type, thicknesses=thick, obj=obj, probes=probes,
